@@ -28,7 +28,8 @@ res = {}
 try:
     for p in props:
         t0 = time.time()
-        r = subprocess.run([os.path.join(V, "check"), p, tier], cwd=V, capture_output=True, text=True)
+        r = subprocess.run([os.path.join(V, "check"), p, tier], cwd=V, capture_output=True, text=True,
+                           env=dict(os.environ, VERIF_MAX_FAILURES=os.environ.get("VERIF_MAX_FAILURES", "60")))
         viol = [l for l in r.stdout.splitlines() if l.startswith("VIOLATION")]
         res[p] = dict(exit=r.returncode, violation_lines=viol[:3], wall_s=round(time.time() - t0, 1), tier=tier)
         print(p, "exit", r.returncode, viol[:1])
